@@ -82,4 +82,22 @@ CHECKS = {
           "best keys); imported MIDI scores are compared with an independent mido read of the file.",
   "note": "Trusted: vmon/refmodels/pitch.py, keyprofile.py (ambiguity guard only), mido. Near-tie key decisions are don't-care.",
  },
+ "C11": {
+  "technique": "pre/post hooks on add_measures / tie_notes / find_tuplets / fill_rests / sanitize_part (sounding-note and measure tables before/after, exact duration arithmetic) + contract on estimate_symbolic_duration over the duration table",
+  "text": "Hooks on the five normalisation functions record the sounding-note multiset, the measure table and all symbolic durations "
+          "before the call and compare after it: sounding notes identical, existing measures untouched, exact tiling of the timeline "
+          "by measures, added bars of exactly the signature's length unless cut by a signature change / existing measure / end, "
+          "consecutive numbering, no pitched note across a barline, tie chains contiguous and homogeneous, every symbolic duration "
+          "assigned during the call exact under the divisions in force. A contract on estimate_symbolic_duration demands that a "
+          "returned value converts back exactly and that exact plain values are not missed; quick samples 2% of the table "
+          "div 1..960 x d 1..8*div, thorough enumerates it completely.",
+  "note": "Trusted: vmon/refmodels/pitch.py (notated values as Fractions), timemaps.py. Bars whose exact end is not an integer position are don't-care.",
+ },
+ "C13": {
+  "technique": "post-condition hooks on _make_pianoroll / compute_pianoroll / compute_pitch_class_pianoroll / pianoroll_to_notearray vs an independent dense rasteriser + permutation re-runs",
+  "text": "Every piano roll produced is compared with a from-scratch rasteriser (shape, cells, velocities with max on collisions, "
+          "onset-only, note separation, margins, piano range, silence removal, end_time, index rows in input order), re-run on "
+          "permuted rows, folded to pitch classes and decoded back to notes; sampled over all option combinations and both time units.",
+  "note": "Trusted: vmon/refmodels/pianoroll.py. Cell-exact only where onsets/durations lie on the frame grid; exact .5 frames are don't-care.",
+ },
 }
